@@ -32,6 +32,8 @@ structure Inv (st : State) : Prop where
   rng : ∀ m ∈ st.delivered ++ st.buf, m.sender < st.senders.length
   held : ∀ m ∈ st.ackedBC, m ∈ st.delivered ∨ m ∈ st.buf
   drain : st.rpc = .drain → st.senderDone = true
+  /-- the receiver gets the values in the order in which their sends on the channel succeeded -/
+  fifoAck : st.delivered ++ st.buf = st.acked
 
 theorem ofSender_append (i : Nat) (a b : List Msg) : ofSender i (a ++ b) = ofSender i a ++ ofSender i b := by
   simp [ofSender, List.filter_append]
@@ -42,7 +44,7 @@ theorem ofSender_single_ne {i : Nat} {m : Msg} (h : m.sender ≠ i) : ofSender i
   simp [ofSender, h]
 
 theorem inv_init (n b : Nat) : Inv (init n b) := by
-  refine ⟨by simp [init], ?_, by simp [init], by simp [init], by simp [init]⟩
+  refine ⟨by simp [init], ?_, by simp [init], by simp [init], by simp [init], by simp [init]⟩
   intro i sd h
   simp only [init, List.getElem?_replicate] at h
   split at h
@@ -59,7 +61,7 @@ theorem getElem?_setSender (st : State) (i j : Nat) (sd : Sender) :
 theorem inv_setSender {st : State} {i : Nat} {sd sd' : Sender} (h : Inv st)
     (_hsd : st.senders[i]? = some sd) (h' : SInv (st.delivered ++ st.buf) i sd') :
     Inv (st.setSender i sd') := by
-  refine ⟨h.cap, ?_, ?_, h.held, h.drain⟩
+  refine ⟨h.cap, ?_, ?_, h.held, h.drain, h.fifoAck⟩
   · intro j sdj hj
     rw [getElem?_setSender] at hj
     split at hj
@@ -137,7 +139,7 @@ theorem after_send_idle {pc : SPc} {ch : String} (hT1 : noSendArm trySendArms1 =
     simp only [tableOf] at htab
     have := List.all_eq_true.mp hT1 (.send ch) (by simpa using htab)
     simp at this
-  | send m => unfold SPc.after; split <;> simp [SPc.fallThrough, SPc.msg?]
+  | send m p => unfold SPc.after; split <;> simp [SPc.fallThrough, SPc.msg?]
   | try2 m => unfold SPc.after; split <;> simp [SPc.fallThrough, SPc.msg?]
 
 /-- The committed list grows by the message in flight of sender `i`; the other components of the
@@ -148,13 +150,14 @@ theorem inv_commit {st st' : State} {i : Nat} {sd : Sender} {m : Msg} {pc' : SPc
     (hL : st'.delivered ++ st'.buf = (st.delivered ++ st.buf) ++ [m])
     (hcap : st'.buf.length ≤ st'.cap)
     (hheld : ∀ x ∈ st'.ackedBC, x ∈ st'.delivered ∨ x ∈ st'.buf)
-    (hdrain : st'.rpc = .drain → st'.senderDone = true) : Inv st' := by
+    (hdrain : st'.rpc = .drain → st'.senderDone = true)
+    (hack : st'.acked = st.acked ++ [m]) : Inv st' := by
   have hi := h.snd i sd hsd
   have hmi := inflight_sender hi hm
   have hlt : i < st.senders.length := by
     have := (List.getElem?_eq_some_iff.mp hsd).1
     exact this
-  refine ⟨hcap, ?_, ?_, hheld, hdrain⟩
+  refine ⟨hcap, ?_, ?_, hheld, hdrain, by rw [hL, hack, h.fifoAck]⟩
   · intro j sdj hj
     rw [hL]
     rw [hsenders, List.getElem?_set] at hj
@@ -184,7 +187,7 @@ theorem mem_commit_ackedBC {st : State} {m x : Msg} (h : x ∈ (commit st m).ack
 theorem canHandoff_facts {st : State} {sd : Sender} (h : canHandoff st sd = true) :
     st.cap = 0 ∧ (tableOf sd.pc).contains (.send chData) = true ∧ accepts st = true := by
   simp [canHandoff, offers] at h
-  exact ⟨h.1.1, by simpa using h.1.2, h.2⟩
+  exact ⟨h.1.1.1, by simpa using h.1.1.2, h.1.2⟩
 
 /-- `Inv` is preserved by every step. The only fact about the regenerated tables it needs: the first
 `select` of `TrySend` has no `send` arm (otherwise a value could enter the channel twice). -/
@@ -202,7 +205,7 @@ theorem inv_step {st st' : State} {l : Label} (hT1 : noSendArm trySendArms1 = tr
     split at hs
     · rename_i hc
       simp at hs; subst hs
-      exact ⟨h.cap, h.snd, h.rng, h.held, by simp⟩
+      exact ⟨h.cap, h.snd, h.rng, h.held, by simp, h.fifoAck⟩
     · simp at hs
   | cancelSender i =>
     obtain ⟨sd, hsd, rfl⟩ := step_cancelSender hs
@@ -212,18 +215,18 @@ theorem inv_step {st st' : State} {l : Label} (hT1 : noSendArm trySendArms1 = tr
     split at hs
     · simp at hs
     · simp at hs; subst hs
-      exact ⟨h.cap, h.snd, h.rng, h.held, h.drain⟩
+      exact ⟨h.cap, h.snd, h.rng, h.held, h.drain, h.fifoAck⟩
   | closeSender e =>
     simp only [step] at hs
     split at hs
     · simp at hs
     · simp at hs; subst hs
-      exact ⟨h.cap, h.snd, h.rng, h.held, by simp⟩
+      exact ⟨h.cap, h.snd, h.rng, h.held, by simp, h.fifoAck⟩
   | closeRecv =>
     simp only [step] at hs
     split at hs
     · simp at hs; subst hs
-      exact ⟨h.cap, h.snd, h.rng, h.held, h.drain⟩
+      exact ⟨h.cap, h.snd, h.rng, h.held, h.drain, h.fifoAck⟩
     · simp at hs
   | sender i a =>
     obtain ⟨sd, m, hsd, hm, htab, hcase⟩ := step_sender hs
@@ -247,6 +250,7 @@ theorem inv_step {st st' : State} {l : Label} (hT1 : noSendArm trySendArms1 = tr
           · exact Or.inr (by simp [h1])
         · exact Or.inr (by simp [hx'])
       · simpa [commit, State.setSender] using h.drain
+      · simp [commit, State.setSender]
   | handoff i =>
     obtain ⟨sd, m, hsd, hm, hc, rfl⟩ := step_handoff hs
     obtain ⟨hcap0, htab, _⟩ := canHandoff_facts hc
@@ -267,11 +271,18 @@ theorem inv_step {st st' : State} {l : Label} (hT1 : noSendArm trySendArms1 = tr
         · exact Or.inr h1
       · exact Or.inl (by simp [hx'])
     · simp [commit, State.setSender]
+    · simp [commit, State.setSender]
+  | park i =>
+    obtain ⟨sd, m, hsd, hpc, _, rfl⟩ := step_park hs
+    exact inv_setSender h hsd (sinv_shrink (h.snd i sd hsd) rfl (Or.inr (by simp [hpc, SPc.msg?])))
+  | parkRecv =>
+    obtain ⟨_, _, rfl⟩ := step_parkRecv hs
+    exact ⟨h.cap, h.snd, h.rng, h.held, by simp, h.fifoAck⟩
   | recv a =>
     obtain ⟨_, hcase⟩ := step_recv hs
     rcases hcase with ⟨m, rest, _, hbuf, rfl⟩ | ⟨_, hsd, _, _, rfl⟩ | ⟨_, _, _, rfl⟩ | ⟨ch, _, _, _, rfl⟩ | ⟨_, _, _, rfl⟩
     · have hL : st.delivered ++ [m] ++ rest = st.delivered ++ st.buf := by simp [hbuf]
-      refine ⟨?_, ?_, ?_, ?_, by simp⟩
+      refine ⟨?_, ?_, ?_, ?_, by simp, by rw [← h.fifoAck, hbuf]; simp⟩
       · have := h.cap; simp [hbuf] at this ⊢; omega
       · intro j sdj hj
         show SInv (st.delivered ++ [m] ++ rest) j sdj
@@ -287,10 +298,10 @@ theorem inv_step {st st' : State} {l : Label} (hT1 : noSendArm trySendArms1 = tr
           rcases h1 with h1 | h1
           · exact Or.inl (by simp [h1])
           · exact Or.inr h1
-    · exact ⟨h.cap, h.snd, h.rng, h.held, fun _ => hsd⟩
-    · exact ⟨h.cap, h.snd, h.rng, h.held, by simp [reportEnd]⟩
-    · exact ⟨h.cap, h.snd, h.rng, h.held, by simp⟩
-    · exact ⟨h.cap, h.snd, h.rng, h.held, by simp [reportEnd]⟩
+    · exact ⟨h.cap, h.snd, h.rng, h.held, fun _ => hsd, h.fifoAck⟩
+    · exact ⟨h.cap, h.snd, h.rng, h.held, by simp [reportEnd], h.fifoAck⟩
+    · exact ⟨h.cap, h.snd, h.rng, h.held, by simp, h.fifoAck⟩
+    · exact ⟨h.cap, h.snd, h.rng, h.held, by simp [reportEnd], h.fifoAck⟩
 
 theorem inv_reach {n b : Nat} {st : State} (hT1 : noSendArm trySendArms1 = true)
     (hr : Reach (init n b) st) : Inv st := by
